@@ -405,6 +405,19 @@ def r2(ctx):
         rec = [c for c in f.calls if c.name == "visit_dependency"]
         ok = bool(pushes) and bool(rec) and all(f.dominates(r.bb, p.bb) for r in rec for p in pushes)
         ctx.ob("R2", "TopologicalSort::visit is post-order", ok, "a key is pushed to `order` only after its dependencies were visited (visit_dependency dominates push)", where=f.loc())
+    # get_order hands out the sorter's post-order vector (not the key set in some other order)
+    f = ctx.anchor("R2", r"deserialize_env::TopologicalSort::<'a, T>::get_order$")
+    if f:
+        ok = False
+        detail = "no `Ok(..)` return found"
+        for bi in f.live_blocks:
+            for st in f.blocks[bi]["s"]:
+                if st[0] == "A" and st[1][0] == 0 and st[2][0] == "agg" and st[2][1].get("variant") == "Ok":
+                    roots = deep_roots(prog, f, st[2][2][0], TRANSPARENT)
+                    new = [c for c in f.calls if c.name == "new" and "TopologicalSort" in c.best]
+                    ok = any((o.kind == "call" and o.ref in new and field_path(o.proj) == ["order"]) for o in roots)
+                    detail = "get_order returns %s" % "; ".join(describe_origin(f, o) for o in roots)
+        ctx.ob("R2", "get_order returns the topological order", ok, detail if ok else detail + " — not the `order` vector filled by the post-order visit: dependants can be registered/applied before their dependencies", where=f.loc())
     # CombinedScan::new sorts before indexing
     f = ctx.anchor("R2", r"^ast_grep_config::combined::CombinedScan::<'r, L>::new$")
     if f:
